@@ -357,7 +357,31 @@ def c19_12(ctx):
     return helper_codec_faithful(ctx)
 
 
+def c19_13(ctx):
+    """MEMO: no method of the modules this property is anchored in answers from a value remembered from an earlier argument or an
+    earlier state of the object (confirmed caches of the reference tree: sa/memo.py CONFIRMED_CACHES)"""
+    from sa.memo import cache_obligation
+    return cache_obligation(ctx, ["network", "helper", "block", "compactfilter"], "bytes serialised once would be returned after a field of the message or header changed")
+
+
+def c19_14(ctx):
+    """SET-ORDER: no ordered result (list, serialisation, yielded sequence) of the modules this property is anchored in takes its
+    order from the iteration order of a set"""
+    from sa.setorder import setorder_obligation
+    return setorder_obligation(ctx, ["network", "helper", "block", "compactfilter"], "the same inputs give different output from run to run")
+
+
+def c19_15(ctx):
+    """SHARED necessary conditions over the modules this property is anchored in: FALSY-DEFAULT, MUTABLE-DEFAULT, IDENTITY, ALIAS,
+    CTOR-FORWARD (sa/shared.py)"""
+    from sa.shared import shared_obligations
+    return shared_obligations(ctx, ["network", "helper", "block", "compactfilter"], "the result would depend on something other than the arguments and the object's current state")
+
+
 OBLIGATIONS = [
+    ("C19.15", "SHARED", c19_15),
+    ("C19.14", "SET-ORDER", c19_14),
+    ("C19.13", "MEMO", c19_13),
     ("C19.12", "CODEC primitives", c19_12),
     ("C19.11", "CTOR-FORWARD", c19_11),
     ("C19.10", "MUTABLE-DEFAULT", c19_10),
